@@ -6,6 +6,8 @@ import (
 	"encoding/asn1"
 	"encoding/json"
 	"fmt"
+	"math/big"
+	"strings"
 
 	"github.com/gmrtd/gmrtd/document"
 	"github.com/gmrtd/gmrtd/verifier"
@@ -193,6 +195,55 @@ func byteMutations(orig, other []byte, allBits bool) []mutation {
 	return out
 }
 
+// algebraicMutations: values that differ from the genuine one but are RELATED to it in the arithmetic of the
+// mechanism - a scalar plus the group order, the negated point, an RSA signature plus the modulus, the ECDSA
+// signature (r, n-s). A verifier that only uses the field through a function with such a symmetry accepts them.
+func algebraicMutations(p *perso.Perso, sess session, f field, orig []byte) []mutation {
+	var out []mutation
+	var curve *refpki.Curve
+	switch f.Mech {
+	case "CAM":
+		if len(sess.Cfg.PACE) > 0 {
+			curve = refpki.CurveByName(refchip.StdCurve(sess.Cfg.PACE[0].ParamID))
+		}
+	case "CA":
+		if len(sess.Cfg.CA) > 0 {
+			curve = refpki.CurveByName(sess.Cfg.CA[0].Curve)
+		}
+	}
+	addN := func(n *big.Int, label string) {
+		v := new(big.Int).Add(new(big.Int).SetBytes(orig), n)
+		w := len(orig)
+		if (v.BitLen()+7)/8 > w {
+			w = (v.BitLen() + 7) / 8
+		}
+		out = append(out, mutation{label, v.FillBytes(make([]byte, w))})
+	}
+	switch {
+	case curve != nil && (f.Name == "TermMapPri" || f.Name == "TermKaPri" || f.Name == "TermPri"):
+		addN(curve.N, "scalar-plus-group-order")
+	case curve != nil && strings.HasSuffix(f.Name, "Pub") || curve != nil && f.Name == "TermPubKey":
+		if x, y, ok := curve.DecodePoint(orig); ok {
+			out = append(out, mutation{"negated-point", curve.EncodePoint(x, new(big.Int).Sub(curve.P, y))})
+		}
+	case f.Mech == "AA" && f.Name == "Signature" && p.Chip.AA != nil:
+		if k := p.Chip.AA.RSA; k != nil {
+			addN(k.N, "rsa-signature-plus-modulus")
+		} else if e := p.Chip.AA.EC; e != nil {
+			n := e.Curve.N
+			l := (n.BitLen() + 7) / 8
+			if len(orig) == 2*l {
+				r, sv := new(big.Int).SetBytes(orig[:l]), new(big.Int).SetBytes(orig[l:])
+				ns := new(big.Int).Sub(n, sv)
+				out = append(out, mutation{"ecdsa-negated-s", append(r.FillBytes(make([]byte, l)), ns.FillBytes(make([]byte, l))...)})
+			} else if r, sv, ok := refpki.ParseECDSASigDER(orig); ok {
+				out = append(out, mutation{"ecdsa-negated-s", refpki.ECDSASigDER(r, new(big.Int).Sub(n, sv))})
+			}
+		}
+	}
+	return out
+}
+
 type caseRec struct {
 	Session  string `json:"session"`
 	Mech     string `json:"mechanism"`
@@ -365,7 +416,7 @@ func run(c *vc.Ctx) {
 			if other.Doc != nil && has(other.Doc, f.Mech) {
 				oth = f.Get(other.Doc)
 			}
-			for _, m := range byteMutations(orig, oth, c.Thorough()) {
+			for _, m := range append(byteMutations(orig, oth, c.Thorough()), algebraicMutations(p, sess, f, orig)...) {
 				f, m := f, m
 				if f.Mech == "AA" && f.Name == "Signature" && m.Kind == "one-byte-appended" && len(orig) > 0 && orig[0] == 0x30 && int(orig[1])+2 == len(orig) {
 					// a byte after a complete DER Ecdsa-Sig-Value does not change the signature value (r,s): representation only
